@@ -207,7 +207,25 @@ func (g *gen) decDoc(kind, pkg string, fail bool, b []byte, nontrivial bool) {
 	g.rep.Count("dec-verdict:" + res[strings.LastIndex(res, "|")+1:])
 }
 
+// cornerDocs: hand-picked documents around past findings (D2, D16, D29, langString datatype, …); run first.
+var cornerDocs = []string{
+	"<a:a> <a:b> \"x\"^^<http://www.w3.org/1999/02/22-rdf-syntax-ns#langString> .\n",
+	"<a:a> <a:b> \"x\"@en-Latn-US .\n", "<a:a> <a:b> \"x\"@ .\n", "<a:a> <a:b> \"x\"@en--US .\n", "<a:a> <a:b> \"x\"@en- .\n",
+	"<http://a", "_", "_:a", "<a:a> <a:b> <a:c> .\n<a:d", "# c", "  \n", "<a:a> <a:b> <a:c> .", "<a:a> <a:b> <a:c> . # c",
+	"<a:a> <a:b> <a:c> <a:g> .\n<a:a> <a:b> <a:c> <a:g> .\n", "<a:a> <a:b> _:a.b.\n", "<a:a> <a:b> _:a. .\n", "_:a.. <a:b> <a:c> .\n",
+	"<a:a> <a:b> \"\\uD800\" .\n", "<a:a> <a:b> \"\\U00110000\" .\n", "<a:a> <a:b> \"\\U0010FFFF\" .\n", "<a:\\u0020> <a:b> <a:c> .\n",
+	"<a:a> <a:b> <a:c> . <a:a> <a:b> <a:c> .\n", "<a:a> <a:b> <a:c> .\r<a:a> <a:b> <a:d> .\r\n", "<a:a>\u00a0<a:b>\u2028<a:c>\u3000.\n",
+	"<a:a> <a:b> \"a\nb\" .\n", "<a:a> <a:b> \"x\"^^<a:t>.\n", "<a:a> <a:b> \"x\"^<a:t> .\n", "<a:a> <a:b> \"x\"^^ <a:t> .\n", "<http://a%20b/> <a:b> <a:c> .\n",
+	"<rel> <a:b> <a:c> .\n", "<a:a> <a:b> \"x\"^^<rel> .\n", "<a:a> <a:b> <a:c> _:g .\n", "<a:a> <a:b> <a:c> \"g\" .\n", "<a:a> _:p <a:c> .\n", "\"s\" <a:b> <a:c> .\n",
+}
+
 func (g *gen) decCases(n int) {
+	for _, d := range cornerDocs {
+		for _, pkg := range []string{"nq", "nt"} {
+			g.decDoc("dec-corner", pkg, false, []byte(d), true)
+			g.decDoc("dec-corner", pkg, true, []byte(d), true)
+		}
+	}
 	for i := 0; i < n; i++ {
 		pkg := vh.Pick(g.r, []string{"nq", "nt"})
 		tbl := vh.NewBNTable(labelPlain)
